@@ -1,15 +1,18 @@
 package sim
 
 import (
+	"context"
 	"errors"
 	"fmt"
 	"io"
 	"io/fs"
+	"net"
 	"net/http"
 	"os"
 	"path"
 	"sort"
 	"strings"
+	"syscall"
 	"time"
 
 	pongo2 "github.com/flosch/pongo2/v6"
@@ -40,6 +43,20 @@ var (
 	ErrInjectedWrite = errors.New("sim: injected writer error")
 	ErrInjectedExec  = errors.New("sim: injected call-back error")
 )
+
+// WriterErrors are the identities a failing caller's writer may report (write_eio_at's
+// parameter selects one): what a real deployment meets when the peer goes away.
+var WriterErrors = []error{
+	ErrInjectedWrite,
+	io.ErrClosedPipe,
+	syscall.EPIPE,
+	syscall.ECONNRESET,
+	net.ErrClosed,
+	io.ErrShortWrite,
+	os.ErrDeadlineExceeded,
+	&net.OpError{Op: "write", Net: "tcp", Err: syscall.EPIPE},
+	context.Canceled,
+}
 
 // FaultSpec is one entry of the fault plan, fixed before the system runs.
 type FaultSpec struct {
@@ -547,6 +564,7 @@ type SimWriter struct {
 	Calls  int
 	broken bool
 	Failed bool
+	Err    error // the error this writer fails with
 }
 
 func (w *World) NewWriter() *SimWriter { return &SimWriter{w: w} }
@@ -554,13 +572,14 @@ func (w *World) NewWriter() *SimWriter { return &SimWriter{w: w} }
 func (sw *SimWriter) Write(p []byte) (int, error) {
 	sw.Calls++
 	if sw.broken {
-		return 0, ErrInjectedWrite
+		return 0, sw.Err
 	}
 	rep := sw.w.call(KWrite, 0, uint32(len(p)), "")
 	switch rep.D {
 	case FWriteEIO:
 		sw.broken, sw.Failed = true, true
-		return 0, ErrInjectedWrite
+		sw.Err = WriterErrors[int(rep.A)%len(WriterErrors)]
+		return 0, sw.Err
 	case FWriteShort:
 		sw.broken, sw.Failed = true, true
 		n := int(rep.A)
@@ -571,7 +590,8 @@ func (sw *SimWriter) Write(p []byte) (int, error) {
 			n = 0
 		}
 		sw.Got = append(sw.Got, p[:n]...)
-		return n, ErrInjectedWrite
+		sw.Err = ErrInjectedWrite
+		return n, sw.Err
 	}
 	sw.Got = append(sw.Got, p...)
 	return len(p), nil
